@@ -35,7 +35,7 @@ COMPONENTS = {
     "real": ["eolib.protocol.protocol_enum_meta.ProtocolEnumMeta", "generated enum modules (real generator run per tree)", "enum.IntEnum of the interpreter"],
     "stub_or_harness": ["construction-history generator", "registry snapshot oracle"],
 }
-PROBES = ["two_constructing_threads_interleaved", "bool_or_int_subclass_argument", "declared_negative_ordinal", "keyword_call_form", "exhaustive_switch_carrier", "warnings_as_errors", "in_flow_read_then_write", "declared", "unknown", "unknown_repeated", "instance_passed_back", "negative", "huge", "none_member",
+PROBES = ["memberless_base_called_first", "two_constructing_threads_interleaved", "bool_or_int_subclass_argument", "declared_negative_ordinal", "keyword_call_form", "exhaustive_switch_carrier", "warnings_as_errors", "in_flow_read_then_write", "declared", "unknown", "unknown_repeated", "instance_passed_back", "negative", "huge", "none_member",
           "boundary_252_253", "unknown_then_declared_same_class"]
 FAULT_KINDS = ["preemption_between_lines", "unknown_ordinal"]
 SHRINK_KEYS = ["ops"]
@@ -324,6 +324,14 @@ def _execute(plan, env):
         classes.append((ns[name], {o: m for m, o in members}, f"hw/{'sparse' if name == 'HwSparse' else 'dense'}/{int(any(m == 'None_' for m, _ in members))}"))
     # hand-written enums that use the hooks the enum module documents for user classes
     exec(HOOKED_SOURCE, ns)
+    if plan.get("ops") and plan["ops"][0][0] % 2:
+        # somebody asks the member-less base class first (whatever that gives or raises), before any enum derived from it is used
+        for n in (0, 1, 2, 7):
+            try:
+                ns["HwBase"](n)
+            except Exception:  # noqa
+                pass
+        res.count("probe.memberless_base_called_first")
     for name, members, shape in HOOKED:
         classes.append((ns[name], dict(members), shape))
     for ename in sorted(te.spec.enums):
